@@ -4,7 +4,7 @@ from __future__ import annotations
 import ast as _ast
 
 from ..common import all_conds, nshow, outer_field, paths
-from ..expr import C, SELF, canon, show, strip_epochs, walk
+from ..expr import rowform, C, SELF, canon, show, strip_epochs, walk
 from ..model import AnalysisError
 from ..own import TABLE, analyse, is_bucket
 
@@ -268,17 +268,32 @@ def check_remove_and_candidates(prog, rep, ctx):
                or e.kind == "setelem" and outer_field(e.cont) == TABLE]
         pres = [c for c in p.conds if c.atom[0] == "cmp" and c.atom[1] in ("is", "isnot") and strip_epochs(c.atom[2])[0] == "ret"
                 and strip_epochs(c.atom[2])[1].endswith("._check_if_present")]
-        present = pres and ((pres[0].atom[1] == "isnot") == pres[0].truth)
+        pr = presence(p)
+        present = pr is not None and pr[0] == "present"
         if mut and not present:
             rep.bad("C03.remove-guarded", where, "removal without presence test", "an entry is removed on a path where the key was not found", mut[0].where())
             ok = False
         for e in mut:
             if e.kind == "call" and e.name == "remove":
                 b = is_bucket(e.recv)
-                idxv = strip_epochs(pres[0].atom[2]) if pres else None
+                idxv = strip_epochs(pres[0].atom[2]) if pres else (strip_epochs(pr[1][2][2]) if present and pr[1] is not None else None)
                 if b is None or b != idxv:
                     rep.bad("C03.remove-guarded", where, f"removes from {nshow(e.recv)}", "the entry is removed from a bucket other than the one where it was found", e.where())
                     ok = False
+            elif e.kind == "call" and e.name in ("__delitem__", "pop") and is_bucket(e.recv) is not None:
+                # positional removal: exactly the position at which the key's entry was found, in the bucket being walked
+                ix = strip_epochs(rowform(e.args[0])) if e.args else None
+                hitpos = pr[1] if present and pr[1] is not None else None
+                okpos = ix is not None and ix[0] == "ix" and hitpos is not None and hitpos[0] == "it" and hitpos[1] == ix[1] \
+                    and strip_epochs(e.recv) == strip_epochs(hitpos[2])
+                if not okpos:
+                    rep.bad("C03.remove-guarded", where, f"{e.name}({nshow(e.args[0]) if e.args else ''}) on {nshow(e.recv)}",
+                            f"remove takes {'a range of entries' if ix is not None and ix[0] == 'slc' else 'an entry'} out of a bucket by position "
+                            f"({nshow(e.args[0]) if e.args else 'last'}) that is not exactly the position where the key's own entry was found: other keys' entries are dropped", e.where())
+                    ok = False
+            elif e.kind == "call" and e.name in ("clear", "sort", "reverse", "extend", "insert") and is_bucket(e.recv) is not None:
+                rep.bad("C03.remove-guarded", where, f"{e.name} on {nshow(e.recv)}", f"remove performs {e.name}() on a bucket", e.where())
+                ok = False
     if ok:
         rep.ok("C03.remove-guarded", where)
     candidates_stable(prog, rep, ctx, "C03.candidates-stable")
@@ -304,6 +319,71 @@ def own_candidates(prog, rep, ctx, rid) -> bool:
     if ok and seen:
         rep.ok(rid, f"{ctx}._generate_fingerprint_info: indices are those of the returned fingerprint")
     return ok
+
+
+def key_triple(p):
+    """(idx_1, idx_2, fingerprint) as handed out by _generate_fingerprint_info on this path, or None"""
+    for e in p.events:
+        if e.kind == "call" and e.name == "_generate_fingerprint_info" and e.d.get("result") is not None:
+            r = strip_epochs(e.result)
+            return ("sub", r, C(0), 0), ("sub", r, C(1), 0), ("sub", r, C(2), 0)
+    return None
+
+
+def presence(p):
+    """what a path of add / remove / check knows about the key's fingerprint being stored:
+    ('present', bin expression or None) / ('absent',) / None.  Recognised through the presence helper's result, or - when the
+    search is written out (a helper looked through) - through a hit `fingerprint in <bin of a candidate bucket>` or two
+    candidate buckets walked to the end without one"""
+    for c in p.conds:
+        a = c.atom
+        if a[0] == "cmp" and a[1] in ("is", "isnot") and a[3] == C(None) and not c.loops and strip_epochs(a[2])[0] == "ret" \
+                and strip_epochs(a[2])[1].endswith("._check_if_present"):
+            if (a[1] == "isnot") != c.truth:
+                return ("absent",)
+            # present: the entry itself, when the path goes on to find it in the reported bucket
+            where_ = ("sub", ("f", SELF, TABLE, 0), strip_epochs(a[2]), 0)
+            for c2 in p.conds:
+                b = strip_epochs(c2.atom)
+                if c2.loops and c2.truth and b[0] == "cmp" and b[1] == "in" and b[3][0] == "it" and b[3][2] == where_:
+                    return ("present", b[3])
+            return ("present", None)
+    kt = key_triple(p)
+    if kt is None:
+        return None
+    i1, i2, fp = kt
+    tab = ("f", SELF, TABLE, 0)
+    buckets = {("sub", tab, i1, 0): "1", ("sub", tab, i2, 0): "2"}
+    hit = None
+    walked = set()
+    for c in p.conds:
+        a = strip_epochs(c.atom)
+        if a[0] == "loop0" and c.truth and a[2] in buckets:
+            walked.add(buckets[a[2]])
+        elif a[0] == "cmp" and a[1] in ("in", "notin") and a[2] == fp and a[3][0] == "it" and a[3][2] in buckets and c.loops:
+            if (a[1] == "in") == c.truth:
+                hit = a[3]
+            else:
+                walked.add(buckets[a[3][2]])
+        elif a[0] == "call" and a[1] == ("g", "any") and len(a[2]) == 1 and a[2][0][0] == "comp" and len(a[2][0][3]) == 1 and not c.truth:
+            g = a[2][0]
+            if g[3][0][2] in buckets and g[2][0] == "cmp" and g[2][1] == "in" and g[2][2] == fp:
+                walked.add(buckets[g[3][0][2]])
+    if hit is not None:
+        return ("present", hit)
+    if walked == {"1", "2"}:
+        return ("absent",)
+    return None
+
+
+def bin_drops(p, after=0):
+    """events that take an entry out of a bucket: bucket.remove(x), del bucket[i], bucket.pop(i)"""
+    out = []
+    for e in p.events[after:]:
+        if e.kind == "call" and e.target is None and e.d.get("recv") is not None and is_bucket(e.recv) is not None \
+                and e.name in ("remove", "__delitem__", "pop"):
+            out.append(e)
+    return out
 
 
 def _whole_table(dom, cap) -> bool:
